@@ -5,64 +5,51 @@ C25 — dedicated clients are isolated and single-use.
 namespace Rv.C25
 open Rv.Dedicated
 
-def isClose : Op → Bool
-  | .close => true
-  | _ => false
-
-/-- `recycled_rejects_all`, the part that holds for the code as it is: after release/Close every
-    method except `Close` leaves the wire alone and answers ErrDedicatedClientRecycled (`release`
-    is void; `DoMulti()` with no commands returns the nil slice before the check).
-    MISSING: `Close` (see `close_after_release_touches_wire`). -/
-theorem recycled_rejects_all_partial (st : St) (hm : st.mark = true) (op : Op) (hc : isClose op = false) :
+/-- **recycled_rejects_all.** After release/Close every method leaves the wire alone: the checked
+    methods answer ErrDedicatedClientRecycled, `release` and `Close` (void) do nothing, `DoMulti()`
+    with no commands returns the nil slice before the check.
+    (Before `fix:` d3f54a6 `Close` called `wire.Close()` without looking at the mark: Dedicate,
+    release, Close closed a connection already back in the pool or acquired by somebody else; the
+    harness still reports that under key `dedicated:close-after-release-closes-recycled-wire`.) -/
+theorem recycled_rejects_all (st : St) (hm : st.mark = true) (op : Op) :
     (step st op).1 = st ∧ (step st op).2.1 = [] ∧
-    ((step st op).2.2 = .recycled ∨ (op = .release ∧ (step st op).2.2 = .void) ∨ (op = .doMulti 0 ∧ (step st op).2.2 = .nilEmpty)) := by
+    ((step st op).2.2 = .recycled ∨ ((op = .release ∨ op = .close) ∧ (step st op).2.2 = .void) ∨
+      (op = .doMulti 0 ∧ (step st op).2.2 = .nilEmpty)) := by
   cases op with
   | doMulti n =>
     by_cases hn : n = 0
     · subst hn; simp [step]
     · simp [step, hm, hn]
-  | close => simp [isClose] at hc
   | _ => simp [step, release, hm]
 
-/-- over all method sequences: once the mark is set it stays set, and no call other than Close
-    reaches the wire any more -/
-theorem recycled_stays_recycled (st : St) (hm : st.mark = true) (ops : List Op) (hc : ∀ op ∈ ops, isClose op = false) :
+/-- over all method sequences: once the mark is set it stays set and no call reaches the wire -/
+theorem recycled_stays_recycled (st : St) (hm : st.mark = true) (ops : List Op) :
     stateAfter st ops = st ∧ ∀ r ∈ run st ops, r.1 = [] := by
   induction ops with
   | nil => simp [stateAfter, run]
   | cons op r ih =>
-    have h1 := recycled_rejects_all_partial st hm op (hc op (by simp))
-    have h2 := ih (fun o ho => hc o (List.mem_cons_of_mem _ ho))
+    have h1 := recycled_rejects_all st hm op
     simp only [stateAfter, run, h1.1]
-    exact ⟨h2.1, by
+    exact ⟨ih.1, by
       intro x hx
       simp only [List.mem_cons] at hx
       rcases hx with hx | hx
       · subst hx; exact h1.2.1
-      · exact h2.2 x hx⟩
+      · exact ih.2 x hx⟩
 
 /-- release and Close both recycle the client -/
 theorem release_marks (st : St) : (step st .release).1.mark = true ∧ (step st .close).1.mark = true := by
   cases hm : st.mark <;> simp [step, release, hm]
 
-/-- DEFECT (full-strength `recycled_rejects_all` fails): `Close()` is `c.wire.Close(); c.release()`
-    without a check of the mark, so after release it still closes the wire — which by then is back in
-    the pool or in another caller's hands. -/
-theorem close_after_release_touches_wire :
-    ¬ ∀ (st : St) (op : Op), st.mark = true → (step st op).2.1 = [] := by
-  intro h
-  have := h { mark := true } .close rfl
-  simp [step, release] at this
-
-/-- the witness as a method sequence: Dedicate, release, Close -/
-example : (run {} [.release, .close]).map (·.1) = [[.wGetHooks, .wSetHooks {}, .wClean, .poolStore], [.wClose]] := by decide
+/-- Dedicate, release, Close: the second call is a no-op -/
+example : (run {} [.release, .close]).map (·.1) = [[.wGetHooks, .wSetHooks {}, .wClean, .poolStore], []] := by decide
 
 /-- **store_cleans.** The first release (or Close) of a client hands the wire back through exactly
     `mux.Store`'s sequence: hooks reset, then CleanSubscriptions, then CLIENT TRACKING OFF iff an
     invalidation callback was installed, then the pool — and a later release does nothing. -/
 theorem store_cleans (st : St) (hm : st.mark = false) :
     (step st .release).2.1 = [.wGetHooks, .wSetHooks {}, .wClean] ++ (if st.hooks.inv then [.wTrackingOff] else []) ++ [.poolStore] ∧
-    (step st .close).2.1 = .wClose :: ([.wGetHooks, .wSetHooks {}, .wClean] ++ (if st.hooks.inv then [.wTrackingOff] else []) ++ [.poolStore]) ∧
+    (step st .close).2.1 = .wClose :: ([.wGetHooks, .wSetHooks {}, .wClean] ++ (if st.hooks.inv then [.wTrackingOff] else []) ++ [.poolStore, .poolDiscard]) ∧
     (step (step st .release).1 .release).2.1 = [] := by
   simp [step, release, hm, storeSeq]
 
@@ -107,7 +94,7 @@ private theorem holder_keeps (a w : Nat) (post pre : List Ev) (hwf : wf (post ++
 
 /-- **exclusive_wire.** In every trace in which the pool hands out a wire only when nobody holds it
     (pool exclusivity: C24, a hypothesis here) and callers write only on wires they hold
-    (`recycled_rejects_all_partial`): between the acquisition of wire `w` by `a` and its hand-back,
+    (`recycled_rejects_all`): between the acquisition of wire `w` by `a` and its hand-back,
     every command on `w` is `a`'s. (Traces are newest-first.) -/
 theorem exclusive_wire (a w : Nat) (post pre : List Ev) (hwf : wf (post ++ .acq a w :: pre))
     (hns : ∀ b, Ev.store b w ∉ post) : ∀ b, Ev.cmd b w ∈ post → b = a := by
@@ -123,14 +110,14 @@ theorem exclusive_wire (a w : Nat) (post pre : List Ev) (hwf : wf (post ++ .acq 
       have he := hwf.2
       have he' : holder (r ++ .acq a w :: pre) w = some b := he
       rw [holder_keeps a w r pre hw hns'] at he'
-      exact (Option.some.inj he')
+      exact (Option.some.inj he').symm
     · exact ih hw hns' b hb
 
 /-- non-vacuity: a well-formed trace with two sessions on one wire -/
 example : wf [.store 2 7, .cmd 2 7, .acq 2 7, .store 1 7, .cmd 1 7, .cmd 1 7, .acq 1 7] := by
   simp [wf, holder]
 
-/-- and what `close_after_release_touches_wire` breaks: a command by 1 while 2 holds the wire is not well-formed -/
+/-- a command by 1 while 2 holds the wire (what Close-after-release did before fix d3f54a6) is not well-formed -/
 example : ¬ wf [.cmd 1 7, .acq 2 7, .store 1 7, .acq 1 7] := by
   simp [wf, holder]
 
